@@ -33,6 +33,20 @@ type Env struct {
 	mode  string
 	err   error
 	pkg   *types.Package
+	scope string // non-empty: reading a callee's contract at a call site; its call ghosts are its own
+	isOld bool
+}
+
+// ghostKey scopes the per-activation call ghosts (called/calledWith/returned count the direct
+// calls of the function whose contract is being read).
+func (env *Env) ghostKey(k string) string {
+	if env.scope == "" {
+		return k
+	}
+	if env.isOld {
+		return env.scope + "$old" + k
+	}
+	return env.scope + k
 }
 
 func (x *Exec) evalSpec(st *State, e *Expr, mode string) (*Term, bool) {
@@ -255,6 +269,9 @@ func (env *Env) binary(e *Expr) SV {
 		}
 	}()
 	bt := types.Type(types.Typ[types.Bool])
+	if (a.T == nil || b.T == nil) && op != "==" && op != "!=" {
+		return env.fail("callee-local call record used outside an equality")
+	}
 	switch op {
 	case "&&":
 		return SV{T: And(env.asBool(a), env.asBool(b)), Ty: bt}
@@ -309,6 +326,9 @@ func (env *Env) asBool(v SV) *Term {
 }
 
 func (env *Env) eq(a, b SV) *Term {
+	if a.T == nil || b.T == nil {
+		return env.x.freshVar("callee_local", SBool)
+	}
 	// nil comparisons on slices
 	if a.Ty != nil {
 		if _, ok := a.Ty.Underlying().(*types.Slice); ok && !isByteSlice(a.Ty) && b.T.Key() == Zero.Key() {
@@ -424,6 +444,7 @@ func (env *Env) inOld() *Env {
 	if env.old != nil {
 		n.st = env.old
 	}
+	n.isOld = true
 	return &n
 }
 
@@ -546,18 +567,31 @@ func (env *Env) call(e *Expr) SV {
 		if len(e.Args) == 0 || e.Args[0].Kind != "str" {
 			return env.fail("called needs a string literal")
 		}
-		return SV{T: st.ghostInt("#call$" + e.Args[0].Lit), Ty: it}
+		return SV{T: st.ghostInt(env.ghostKey("#call$" + e.Args[0].Lit)), Ty: it}
 	case "calledWith":
 		// calledWith("f", i): i-th argument of the last call of f
 		if len(e.Args) < 2 || e.Args[0].Kind != "str" {
 			return env.fail("calledWith needs (name, index)")
 		}
 		n, _ := strconv.Atoi(e.Args[1].Lit)
-		k := fmt.Sprintf("#arg$%s$%d", e.Args[0].Lit, n)
+		k := env.ghostKey(fmt.Sprintf("#arg$%s$%d", e.Args[0].Lit, n))
 		if t, ok := st.ghost[k]; ok {
 			return SV{T: t}
 		}
-		return SV{T: st.ghostInt(k)}
+		// a callee's own record, or no such call on this path: an unknown value (an equality
+		// with it is an unconstrained boolean, so a clause relying on it cannot be proved)
+		return SV{T: nil, Ty: nil}
+	case "returned":
+		// returned("f", i): i-th result of the last call of f
+		if len(e.Args) < 2 || e.Args[0].Kind != "str" {
+			return env.fail("returned needs (name, index)")
+		}
+		n, _ := strconv.Atoi(e.Args[1].Lit)
+		k := env.ghostKey(fmt.Sprintf("#ret$%s$%d", e.Args[0].Lit, n))
+		if t, ok := st.ghost[k]; ok {
+			return SV{T: t}
+		}
+		return SV{T: nil, Ty: nil}
 	case "typeof":
 		return SV{T: App("typeof", SInt, arg(0).T), Ty: it}
 	case "hasType":
